@@ -592,7 +592,10 @@ class Generator:
         out.gen(HEADER, 'header')
         out.gen('// ---- contracts/prelude.rs ----\n', 'prelude')
         out.gen(self.prelude if self.prelude.endswith('\n') else self.prelude + '\n', 'prelude')
+        self.lemmas = []
         for origin, text, rprops in self.raws:
+            for lm in re.finditer(r'(?m)^\s*(?:pub\s+)?proof\s+fn\s+(\w+)', text):
+                self.lemmas.append({'name': lm.group(1), 'props': rprops, 'origin': origin})
             out.gen('// ---- raw %s ----\n' % origin, 'raw')
             if rprops and unit is not None and not (set(rprops) & set(unit)):
                 # lemmas of other properties: assumed in this unit (proved in the units that own them and in the thorough tier)
@@ -608,7 +611,7 @@ class Generator:
                                    % (s.origin, s.file, s.impl, s.name))
         text, linemap, labels = out.finish(self.srcs)
         return {'text': text, 'linemap': linemap, 'labels': labels, 'fns': self.fninfo,
-                'dropped': self.dropped, 'rewrites': self.rewrites}
+                'dropped': self.dropped, 'rewrites': self.rewrites, 'lemmas': self.lemmas}
 
     # ------------------------------------------------------------------
     def emit_file(self, out, rel, unit, vacuity):
